@@ -103,13 +103,6 @@ theorem ramp_is_opd_ramp (dx du wl z th X : R) (os : R) (hw : wl ≠ 0) (hz : z 
     RealLike.twoPi * ((dx * du) / (wl * z * os)) * X * (z * th / du * os) = RealLike.twoPi * (th * X * dx) / wl := by
   field_simp
 
-/-- the input field multiplied by the phase ramp of a displacement `(sr, sc)` output samples (for `alpha` as in
-`ramp_is_opd_ramp` this is the phasor of the OPD ramp `thx*r*dx0 - thy*c*dx1`, `r`/`c` global pupil coordinates) -/
-def rampField (f : Fld K) (αr αc sr sc : R) : Fld K :=
-  { f with arr := { f.arr with get := fun x y => f.arr.get x y *
-      ((CxLike.expI (RealLike.twoPi * αr * RealLike.ofInt (cc f.arr.s0 x + f.o0) * sr) : K) *
-       CxLike.expI (RealLike.twoPi * αc * RealLike.ofInt (cc f.arr.s1 y + f.o1) * sc)) } }
-
 /-- **Tilt as metadata ≡ tilt in the OPD, sample for sample wherever both evaluate.** Propagating the field with the
 tilt carried as metadata (shift `fix + sub` in output samples, any integer split, any output extent / propagation shape)
 and propagating the field multiplied by the corresponding phase ramp with no metadata (any other output extent /
